@@ -5,6 +5,7 @@ pub mod types {
             use vstd::prelude::*;
             use vstd::std_specs::convert::FromSpecImpl;
             verus! {
+            #[derive(Debug)]
             pub struct Coin { pub denom: String, pub amount: String }
             /// osmosis-std: `impl From<cosmwasm_std::Coin> for Coin` – amount rendered in decimal
             impl FromSpecImpl<crate::cosmwasm_std::Coin> for Coin {
@@ -25,6 +26,7 @@ pub mod types {
             use crate::cosmwasm_std::{CosmosMsg, IntoCosmos};
             use super::super::base::v1beta1::Coin;
             verus! {
+            #[derive(Debug)]
             pub struct MsgSend { pub from_address: String, pub to_address: String, pub amount: Vec<Coin> }
             impl IntoCosmos for MsgSend { open spec fn cm(self) -> CosmosMsg { CosmosMsg::OsmoSend(self) } }
             impl FromSpecImpl<MsgSend> for CosmosMsg {
@@ -41,6 +43,7 @@ pub mod types {
         use crate::cosmwasm_std::{CosmosMsg, IntoCosmos};
         use super::super::super::cosmos::base::v1beta1::Coin;
         verus! {
+        #[derive(Debug)]
         pub struct MsgExecuteContract { pub sender: String, pub contract: String, pub msg: Vec<u8>, pub funds: Vec<Coin> }
         impl IntoCosmos for MsgExecuteContract { open spec fn cm(self) -> CosmosMsg { CosmosMsg::OsmoExec(self) } }
         impl FromSpecImpl<MsgExecuteContract> for CosmosMsg {
@@ -56,7 +59,9 @@ pub mod types {
         use crate::cosmwasm_std::{CosmosMsg, IntoCosmos};
         use super::super::super::super::cosmos::base::v1beta1::Coin;
         verus! {
+        #[derive(Debug)]
         pub struct Height { pub revision_number: u64, pub revision_height: u64 }
+        #[derive(Debug)]
         pub struct MsgTransfer {
             pub source_port: String, pub source_channel: String, pub token: Option<Coin>,
             pub sender: String, pub receiver: String, pub timeout_height: Option<Height>,
@@ -69,9 +74,11 @@ pub mod types {
         }
         impl From<MsgTransfer> for CosmosMsg { fn from(m: MsgTransfer) -> (r: Self) { CosmosMsg::OsmoTransfer(m) } }
 
+        #[derive(Debug)]
         pub struct MsgTransferResponse { pub sequence: u64 }
         /// prost decoding of the reply data: partial, result otherwise unconstrained.
         pub uninterp spec fn transfer_response_decode(b: Seq<u8>) -> Option<u64>;
+        #[derive(Debug)]
         pub struct DecodeError { pub dummy: u8 }
         impl MsgTransferResponse {
             #[verifier::external_body]
@@ -90,8 +97,11 @@ pub mod types {
             use crate::cosmwasm_std::{CosmosMsg, IntoCosmos};
             use super::super::super::cosmos::base::v1beta1::Coin;
             verus! {
+            #[derive(Debug)]
             pub struct MsgCreateDenom { pub sender: String, pub subdenom: String }
+            #[derive(Debug)]
             pub struct MsgMint { pub sender: String, pub amount: Option<Coin>, pub mint_to_address: String }
+            #[derive(Debug)]
             pub struct MsgBurn { pub sender: String, pub amount: Option<Coin>, pub burn_from_address: String }
             impl FromSpecImpl<MsgCreateDenom> for CosmosMsg {
                 open spec fn obeys_from_spec() -> bool { true }
@@ -116,9 +126,13 @@ pub mod types {
             use crate::cosmwasm_std::{CosmosMsg, IntoCosmos};
             use super::super::super::cosmos::base::v1beta1::Coin;
             verus! {
+            #[derive(Debug)]
             pub struct SwapAmountInRoute { pub pool_id: u64, pub token_out_denom: String }
+            #[derive(Debug)]
             pub struct SwapAmountOutRoute { pub pool_id: u64, pub token_in_denom: String }
+            #[derive(Debug)]
             pub struct MsgSwapExactAmountIn { pub sender: String, pub routes: Vec<SwapAmountInRoute>, pub token_in: Option<Coin>, pub token_out_min_amount: String }
+            #[derive(Debug)]
             pub struct MsgSwapExactAmountOut { pub sender: String, pub routes: Vec<SwapAmountOutRoute>, pub token_in_max_amount: String, pub token_out: Option<Coin> }
             impl IntoCosmos for MsgSwapExactAmountIn { open spec fn cm(self) -> CosmosMsg { CosmosMsg::SwapIn(self) } }
             impl IntoCosmos for MsgSwapExactAmountOut { open spec fn cm(self) -> CosmosMsg { CosmosMsg::SwapOut(self) } }
